@@ -49,6 +49,11 @@ spec fn ticks_desc(s: Seq<StoredSnap>) -> bool {
 }
 impl Storage {
     spec fn wf(&self) -> bool { ticks_desc(self.snaps@) && self.snaps@.len() <= MAX_STORED_SNAPSHOT }
+    // sender side: the tick announced as the base of the next delta (delta_tick) is the tick of the snapshot the delta is computed
+    // from (the oldest stored one)
+    spec fn base_ok(&self) -> bool {
+        self.delta_tick is Some ==> self.snaps@.len() > 0 && self.snaps@[self.snaps@.len() - 1].tick == self.delta_tick->Some_0
+    }
 }
 fn vx_front<T>(q: &VecDeque<T>) -> (r: Option<&T>)
     ensures q@.len() == 0 <==> r.is_none(), r.is_some() ==> *r.unwrap() == q@[0],
